@@ -11,7 +11,7 @@ import traceback
 import numpy as np
 
 HERE = os.path.dirname(os.path.dirname(os.path.abspath(__file__)))
-THOROUGH_FACTOR = 0.5   # the per-sub-check thorough budgets were calibrated to ~2x what fits in 10 min on 16 idle cores
+THOROUGH_FACTOR = 0.3   # the per-sub-check thorough budgets are scaled so that one property takes roughly 6-10 min on 16 idle cores
 
 
 def die(msg):
